@@ -166,6 +166,9 @@ void AutomationMgr::setSlotSub(int slot_id, int par, float value)
         else if(v < mn)
             v = mn;
 
+        if(au.map.control_scale == 1)
+            v = expf(v);
+
         rtosc_message(msg, 256, path, type == 'i' ? "i" : "c", (int)roundf(v));
     } else if(type == 'f') {
         float v = value*(b-a) + a;
